@@ -4,6 +4,8 @@ import (
 	"fmt"
 	"go/token"
 	"go/types"
+	"os"
+	"regexp"
 	"strings"
 
 	"golang.org/x/tools/go/ssa"
@@ -594,6 +596,16 @@ func runLint(which string) {
 		sites, hits = droppedErrors(p, fns)
 	case "L7":
 		sites, hits = uncheckedPartials(fns)
+	case "L12":
+		re := regexp.MustCompile(os.Getenv("GCV_FUNCS"))
+		for _, fn := range fns {
+			if !re.MatchString(funcKey(fn)) {
+				continue
+			}
+			n, h := unguardedAccesses(p, fn)
+			sites += n
+			hits = append(hits, h...)
+		}
 	case "L17":
 		eff := NewEffects(p)
 		var inits []onceInit
@@ -612,7 +624,7 @@ func runLint(which string) {
 
 // evalConstInt folds integer constants through +,-,* and identical-phi.
 func evalConstInt(v ssa.Value, depth int) (int64, bool) {
-	if depth > 16 {
+	if depth > 80 {
 		return 0, false
 	}
 	v = stripConv(v)
